@@ -21,6 +21,7 @@ pub mod asmrun;
 pub mod objrt;
 pub mod simcmp;
 pub mod simfam;
+pub mod osinfo;
 
 props! {
     "C01" => c01,
@@ -32,6 +33,9 @@ props! {
     "C07" => c07,
     "C08" => c08,
     "C09" => c09,
+    "C11" => c11,
+    "C12" => c12,
+    "C14" => c14,
     "C15" => c15,
     "C16" => c16,
     "C17" => c17,
